@@ -12,6 +12,8 @@ import (
 	"verifharness/internal/cases"
 	"verifharness/internal/cq"
 	"verifharness/internal/framefmt"
+	"verifharness/internal/noise"
+	"verifharness/internal/reuse"
 )
 
 func decode(b []byte) (q lorawan.PHYPayload, s string, ok bool) {
@@ -44,23 +46,13 @@ func encode(p lorawan.PHYPayload) (b []byte, s string) {
 
 // reused is decoded into again and again: a frame accepted into a used value must be the frame
 // a fresh decode gives (and re-encode to the received bytes just the same)
-var reused lorawan.PHYPayload
+var reused reuse.Receiver
+var nr *cq.RNG
 
 func add(s *cases.Set, b []byte, kind string) {
 	q, o, ok := decode(b)
-	func() {
-		defer func() { _ = recover() }()
-		err := reused.UnmarshalBinary(append([]byte{}, b...))
-		if (err == nil) != ok {
-			s.Fail(cases.GoFail{Key: fmt.Sprintf("reused-decode:%x", b), What: "decoding into a used PHYPayload accepts/rejects differently from a fresh one", Replay: map[string]interface{}{"bytes": fmt.Sprintf("%x", b)}})
-			return
-		}
-		if err == nil {
-			if t := cq.Ok(framefmt.Phy(reused, framefmt.DecodedFOptsLen(b))); t != o {
-				s.Fail(cases.GoFail{Key: fmt.Sprintf("reused-decode:%x", b), What: "decoding into a used PHYPayload gives " + t + " instead of " + o, Replay: map[string]interface{}{"bytes": fmt.Sprintf("%x", b)}})
-			}
-		}
-	}()
+	noise.Step(nr)
+	reused.Decode(s, nr, b, o)
 	ore, oagain := cq.Err, cq.Err
 	if ok {
 		var b2 []byte
@@ -78,6 +70,7 @@ func main() {
 	log.SetOutput(io.Discard)
 	dir, seed, thorough := cases.Args()
 	r := cq.NewRNG(seed)
+	nr = cq.NewRNG(seed ^ 0x9e3779b97f4a7c15)
 	s := cases.New("C08", dir, "LW.Corr.C08",
 		"byte strings: uniform random length 0..256; every MHDR byte with typical lengths; model-guided data frames for every FOptsLen 0..15 with total lengths 7+ol-1 .. 7+ol+3 and FPort 0 / non-0 (reaches every branch of the MACPayload decoder); join-request / rejoin / join-accept / proprietary lengths around the accepted ones; single- and multi-bit mutations, truncations and extensions of valid frames. Non-trivial: strings the decoder accepts.")
 	s.ShardSize = 300
